@@ -98,7 +98,7 @@ CallStart(k) == /\ cpc[k] = "idle" /\ cpc' = [cpc EXCEPT ![k] = "reg"]
 CallRegister(k) == /\ cpc[k] = "reg"
   /\ (IF ShuttingDown(st)
       THEN /\ CS(st) /\ ready' = [ready EXCEPT ![k] = TRUE] /\ outcome' = [outcome EXCEPT ![k] = "closed"]
-           /\ cpc' = [cpc EXCEPT ![k] = "done"]
+           /\ cpc' = [cpc EXCEPT ![k] = "await"]     \* Call returns a call that is already retired; mcp.call awaits it
       ELSE /\ CS([st EXCEPT !.outgoing = @ \cup {k}]) /\ cpc' = [cpc EXCEPT ![k] = "wcheck"]
            /\ UNCHANGED <<ready, outcome>>)
   /\ UNCHANGED <<ctxDone, sent, npc, rdpc, rdarg, unread, dpc, darg, hpc, released, hctx, rp, isnotif, canpc, clpc, wtpc, wire>>
@@ -141,8 +141,11 @@ CallAwaitReady(k) == /\ cpc[k] = "await" /\ ready[k] /\ ~ctxDone[k] /\ cpc' = [c
   /\ UNCHANGED <<st, ready, outcome, ctxDone, sent, npc, rdpc, rdarg, unread, dpc, darg, hpc, released, hctx, rp, isnotif, canpc, clpc, wtpc, transportClosed, wire>>
 \* Await with a dead context: mcp.call retires eagerly, then notifies off the return path
 \* (if the call was refused as closing, mcp.call returns the closing error and sends nothing)
+\* (when the call is already retired with the closing error AND the context is done, Await's select may see
+\* either first: the closing error is returned as it is, the context error takes the cancel path)
 CallCancelPath(k) == /\ cpc[k] = "await" /\ ctxDone[k]
-  /\ cpc' = [cpc EXCEPT ![k] = IF ready[k] /\ outcome[k] = "closed" THEN "done" ELSE "retireC"]
+  /\ \E nxt \in (IF ready[k] /\ outcome[k] = "closed" THEN {"done", "retireC"} ELSE {"retireC"}) :
+        cpc' = [cpc EXCEPT ![k] = nxt]
   /\ UNCHANGED <<st, ready, outcome, ctxDone, sent, npc, rdpc, rdarg, unread, dpc, darg, hpc, released, hctx, rp, isnotif, canpc, clpc, wtpc, transportClosed, wire>>
 CallRetireC(k) == /\ cpc[k] = "retireC" /\ Retire(k, "ctx") /\ cpc' = [cpc EXCEPT ![k] = "done"]
   /\ npc' = [npc EXCEPT ![k] = "admit"]
